@@ -89,3 +89,24 @@ package wallet
 //@   property C19
 //@   ensures one_transaction: dbUpdates == old(dbUpdates) + 1
 //@   ensures failure_no_wallet: err != nil ==> w == nil
+
+// C07: the wallet's input source (the closure returned by makeInputSource)
+// satisfies what txauthor.NewUnsignedTransaction assumes of it: the three
+// returned slices have equal length, the total is the sum of the returned
+// values, coins are consumed in order, and it stops only when the target is
+// met or the eligible coins are exhausted. sumAmt_ext (two rows that agree on a
+// window have the same window sum) is an inductive fact about sumAmt.
+//@ axiom sumAmt_ext: forall r1 [Int]Int, o1 Int, r2 [Int]Int, o2 Int, n Int :: {sumAmt(r1, o1, n), sumAmt(r2, o2, n)}
+//@     (forall i Int :: 0 <= i && i < n ==> select(r1, o1 + i) == select(r2, o2 + i)) ==> sumAmt(r1, o1, n) == sumAmt(r2, o2, n)
+//@ macro SRC_STATE() = (len(currentInputs) == len(currentInputValues) && len(currentInputs) == len(currentScripts)
+//@     && len(currentInputs) + len(eligible) <= 4000
+//@     && currentTotal == SUMAMT(currentInputValues, len(currentInputValues))
+//@     && 0 <= currentTotal && currentTotal <= len(currentInputValues) * 2100000000000000
+//@     && (forall i Int :: {eligible[i]} 0 <= i && i < len(eligible) ==> 0 <= eligible[i].Value && eligible[i].Value <= 2100000000000000))
+//@ func makeInputSource$1(target) (total, inputs, values, scripts, err)
+//@   property C07
+//@   requires state: SRC_STATE()
+//@   invariant 1 state: SRC_STATE()
+//@   ensures source_spec: err == nil && len(inputs) == len(values) && len(inputs) == len(scripts) && total == SUMAMT(values, len(values)) && 0 <= total
+//@   ensures enough_or_exhausted: total >= target || len(eligible) == 0
+//@   ensures state_kept: SRC_STATE()
